@@ -4,7 +4,7 @@ import re
 from .. import facts, path, cfg as cfgm, tab
 from ..facts import AnalysisBroken, strip, sub, locstr
 
-TUS = ['src/uscxml/debug/InterpreterIssue.cpp', 'src/uscxml/interpreter/BasicContentExecutor.cpp', 'src/uscxml/interpreter/InterpreterImpl.cpp',
+TUS = ['src/uscxml/util/Predicates.cpp', 'src/uscxml/debug/InterpreterIssue.cpp', 'src/uscxml/interpreter/BasicContentExecutor.cpp', 'src/uscxml/interpreter/InterpreterImpl.cpp',
        'src/uscxml/plugins/datamodel/lua/LuaDataModel.cpp', 'src/uscxml/plugins/datamodel/promela/PromelaDataModel.cpp',
        'src/uscxml/plugins/datamodel/null/NullDataModel.cpp', 'src/uscxml/interpreter/LargeMicroStep.cpp', 'src/uscxml/interpreter/FastMicroStep.cpp']
 
@@ -226,6 +226,8 @@ def run(rep, tier):
     pair_enumeration(rep, fb)
     lookup_tables(rep, fb)
     nearest_common_ancestor(rep, fb)
+    root_has_initial_too(rep, fb)
+    unknown_ids_filtered(rep, fb)
 
 
 def lookup_tables(rep, fb):
@@ -454,6 +456,89 @@ def nearest_common_ancestor(rep, fb):
                           'after `%s` holds the ancestor walk %s' % (' '.join(fb.text(t).split())[:50], 'ends (the least common ancestor decides)' if w is None else
                           'CONTINUES upwards (%s): any enclosing <parallel> makes the pair legal, e.g. two children of one compound state inside a parallel' % locstr(steps[0])))
     rep.minimum('R19.9', found, 1, 'ancestor walks with a common-ancestor test in the pair test of hasLegalCompletion')
+
+
+def root_has_initial_too(rep, fb):
+    """R19.10: checks of the `initial` attribute cover the root element"""
+    rep.rule('R19.10', 'the root is a state with an initial attribute like any other: every loop of the validator that judges the `initial` attribute of the elements it walks iterates a collection that contains the <scxml> element (the id list of <scxml initial="a1 a2"> reaches the engines unchecked otherwise)')
+    val = fb.fn('uscxml::InterpreterIssue::forInterpreter')
+    n_loops = 0
+    for lp in val.walk():
+        if lp['k'] not in ('ForStmt', 'CXXForRangeStmt'):
+            continue
+        body = lp['c'][-1]
+        if body is None:
+            continue
+        # loops nested in another candidate are judged with the outer one
+        hdr = [c for c in lp['c'][:-1] if c is not None]
+        conts = {x['ref']['lid']: x['ref'].get('name') for h in hdr for x in sub(h) if x['k'] == 'DeclRefExpr' and 'lid' in x.get('ref', {}) and re.search(r'std::(list|vector|set)<', x.get('t') or '') and 'iterator' not in (x.get('t') or '')}
+        if len(conts) != 1:
+            continue
+        # the loop element: the variable declared from *iter at the top of the body (or the range variable)
+        elem = None
+        for n in sub(body):
+            if n['k'] == 'DeclStmt':
+                for d in n.get('decls', []):
+                    if 'DOMElement' in (d.get('t') or '') and 'init' in d:
+                        elem = d['lid']
+                        break
+            if elem is not None:
+                break
+        if elem is None:
+            continue
+        # does the body read the initial attribute OF THE LOOP ELEMENT?
+        # ... its VALUE (getAttribute), not only its presence
+        reads = [n for n in sub(body) if n['k'] in ('CallExpr', 'CXXMemberCallExpr') and n.get('callee', {}).get('q', '').split('::')[-1] == 'getAttribute' and any(
+            x['k'] == 'DeclRefExpr' and x.get('ref', {}).get('name') == 'kXMLCharInitial' for x in sub(n)) and any(
+            x['k'] == 'DeclRefExpr' and x.get('ref', {}).get('lid') == elem for x in sub(n))]
+        if not reads:
+            continue
+        n_loops += 1
+        clid, cname = list(conts.items())[0]
+        has_root = any(n['k'] == 'CXXMemberCallExpr' and n.get('callee', {}).get('q', '').split('::')[-1] in ('push_back', 'push_front', 'insert') and n['c'][0].get('c') and
+                       strip(n['c'][0]['c'][0]).get('ref', {}).get('lid') == clid and any(x['k'] in ('MemberExpr', 'DeclRefExpr') and x.get('ref', {}).get('name') == '_scxml' for a_ in n['c'][1:] for x in sub(a_))
+                       for n in val.walk())
+        rep.check(has_root, 'R19.10', 'forInterpreter|loop over %s at line %d' % (cname, lp['loc'][1]), locstr(lp), 'the loop judges the initial attribute of the members of `%s`, which %s' % (
+            cname, 'contains the root element' if has_root else 'does NOT contain the <scxml> element: <scxml initial="a1 a2"> with a1, a2 children of one compound state is not checked for a legal configuration'))
+    rep.minimum('R19.10', n_loops, 2, 'loops of the validator that judge the initial attribute')
+
+
+def unknown_ids_filtered(rep, fb):
+    """R19.11: an id that names no state yields NULL from getState; nothing built from it hands the NULL on"""
+    rep.rule('R19.11', 'unknown ids do not become null elements: every use of getState(id, root) tests the result before it is stored in a collection or dereferenced (the siblings getTargetStates and getStates agree); the validator walks these collections before its own id checks run')
+    n = 0
+    for f in fb.funcs.values():
+        if not f.file.startswith('src/uscxml/') or not f.d.get('body'):
+            continue
+        for c in f.walk():
+            if c['k'] != 'CallExpr' or c.get('callee', {}).get('q') != 'uscxml::getState':
+                continue
+            n += 1
+            par = f.parent(c)
+            while par is not None and par['k'] in facts.TRANSPARENT:
+                par = f.parent(par)
+            ok, how = False, 'used directly'
+            if par is not None and par['k'] == 'DeclStmt' or (par is not None and par['k'] in ('BinaryOperator',) and par.get('op') == '='):
+                # stored in a local: some branch condition tests that local
+                lid = None
+                if par['k'] == 'DeclStmt':
+                    lid = par['decls'][0]['lid']
+                else:
+                    l = strip(par['c'][0])
+                    lid = l.get('ref', {}).get('lid') if l else None
+                tested = any(x['k'] in ('IfStmt', 'WhileStmt', 'ConditionalOperator') and any(y['k'] == 'DeclRefExpr' and y.get('ref', {}).get('lid') == lid for y in sub(x['c'][0])) for x in f.walk())
+                ok, how = tested, 'stored in a local that is %s' % ('tested' if tested else 'never tested')
+            elif par is not None and par['k'] == 'CXXMemberCallExpr' and par.get('callee', {}).get('q', '').split('::')[-1] in ('push_back', 'push_front', 'insert', 'emplace_back'):
+                how = 'pushed into a collection untested'
+            elif par is not None and par['k'] in ('MemberExpr', 'CXXMemberCallExpr'):
+                # dereferenced at once: accepted only under a presence test of the id in the enclosing conditions
+                guarded = any(a_['k'] == 'IfStmt' and any(y.get('callee', {}).get('q', '').split('::')[-1] in ('find', 'count') for y in sub(a_['c'][0])) for a_ in f.ancestors(c))
+                ok, how = guarded, 'dereferenced at once %s' % ('under a presence test of the id' if guarded else 'without any test')
+            elif par is not None and par['k'] == 'ReturnStmt':
+                ok, how = True, 'returned to the caller'
+            rep.check(ok, 'R19.11', '%s|getState#%d' % (f.q.split('::')[-1], sum(1 for x in f.walk() if x.get('callee', {}).get('q') == 'uscxml::getState' and x['loc'][1] < c['loc'][1])), locstr(c),
+                      'result of getState %s%s' % (how, '' if ok else ': for an id that names no state a NULL element travels on (validation of <state initial="nope"> dereferences it in getReachableStates before the id check runs)'))
+    rep.minimum('R19.11', n, 2, 'uses of getState')
 
 
 LOOPS = ('ForStmt', 'CXXForRangeStmt', 'WhileStmt', 'DoStmt')
